@@ -20,6 +20,11 @@ try:
     gen_consts.generate()
 except Exception as e:
     sys.stderr.write("gen_consts: %s\n" % e)
+try:
+    import gen_convert
+    gen_convert.generate()
+except Exception as e:
+    sys.stderr.write("gen_convert: %s\n" % e)
 def write_roots():
     """root modules importing every project module, so that a bare `lake build` checks everything"""
     lean = os.path.join(VERIF, "lean")
